@@ -515,10 +515,9 @@ def extra(tier, seed, stats):
         shards, n_machines, n_steps = 16, 4, 10
     else:
         shards, n_machines, n_steps = 16, 40, 20
-    ctx = multiprocessing.get_context('fork')
+    from ..runner import pmap
     jobs = [(tier, seed, sh, n_machines, n_steps) for sh in range(shards)]
-    with ctx.Pool(min(shards, os.cpu_count() or 1)) as pool:
-        results = pool.map(_shard, jobs, chunksize=1)
+    results = pmap(_shard, jobs, shards)
     found = {}
     sigs = set()
     for good, fnd, _t in results:
